@@ -180,6 +180,15 @@ func generateErrGroupDeclaration(errgroupName, ctxParamName string) *ast.AssignS
 	}
 }
 
+// markTypeImportsUsed marks as used exactly the imports that spelling t refers to.
+func markTypeImportsUsed(t types.Type, pkg string, imports map[string]*Import, varPool *VarPool) {
+	referenced := make(map[string]*Import)
+	collectImportsFromType(t, pkg, imports, referenced, varPool)
+	for _, imp := range referenced {
+		imp.IsUsed = true
+	}
+}
+
 // generateVariableSpecs creates variable declarations for async access
 func generateVariableSpecs(pkg string, injector *Injector, varPool *VarPool, imports map[string]*Import) ([]ast.Spec, error) {
 	var specs []ast.Spec
@@ -190,10 +199,9 @@ func generateVariableSpecs(pkg string, injector *Injector, varPool *VarPool, imp
 			continue
 		}
 
-		// Mark imports used by this var-defined parameter as used
-		for _, imp := range param.ReferencedImports {
-			imp.IsUsed = true
-		}
+		// Mark the imports needed to spell the variable's type as used (a parameter can carry further types,
+		// e.g. bound interfaces, that are not written here)
+		markTypeImportsUsed(param.Type(), pkg, imports, varPool)
 
 		typeExpr, err := createASTTypeExpr(pkg, param.Type(), varPool, imports)
 		if err != nil {
@@ -317,12 +325,9 @@ func generateInjectorDecl(metaData *MetaData, injector *Injector, varPool *VarPo
 	// Return type - will be set in Results field
 	resultsFields := make([]*ast.Field, 0, maxInjectorReturnValues)
 	if injector.Return != nil && injector.Return.Return != nil && injector.Return.Return.ASTTypeExpr != nil {
-		// Mark imports used by return types as used since they appear in function signature
-		if injector.Return.Param != nil {
-			for _, imp := range injector.Return.Param.ReferencedImports {
-				imp.IsUsed = true
-			}
-		}
+		// Mark the imports of the requested type as used since it appears in the function signature
+		// (not those of the other types the returned value also has, e.g. the concrete type behind a Bind)
+		markTypeImportsUsed(injector.Return.Return.Type, metaData.Package.Path, metaData.Imports, varPool)
 		resultsFields = append(resultsFields, &ast.Field{
 			Type: injector.Return.Return.ASTTypeExpr,
 		})
